@@ -43,7 +43,10 @@ def cmd_determinism(rest):
     for pid in pids:
         seed = 7
         c1, d1, l1 = digests(pid, n, 1, seed)
+        # perturb the heap between the two passes: anything ordered by object address would now differ
+        junk = [[object() for _ in range(37)] for _ in range(20011)]
         c2, d2, _ = digests(pid, n, 1, seed)
+        del junk
         env = dict(os.environ)
         env["PYTHONHASHSEED"] = "4242"
         proc = subprocess.run([sys.executable, "-B", os.path.join(VERIF_DIR, "run.py"), "selftest", "digests",
